@@ -53,3 +53,9 @@ CLAIMS["C09"] = (
  "Trusted: cmd/ogen as macro-expander; fixture corpus; go/ssa dominance and loop structure.",
  "static analysis: SSA dominance, constant extraction of bit indices and masks, loop-shape matching, sibling agreement of client/server credential carriers",
 )
+CLAIMS["C05"] = (
+ "other",
+ "Path properties of the generated matcher for every request, per expansion (S2: router.tmpl expanded by cmd/ogen built from the current tree over the fixtures; static rules over the expanded AST/SSA): captured arguments are slash-free; ServeHTTP and FindPath contain the same decision tree (normalised token streams: prefixes, head bytes, parameter indices/delimiters, leaf method→operation/arity); static children precede the parameter child and every exit after consuming input restores elem; every 405's Allow string is the comma-join of that leaf's methods; every path of ServeHTTP performs exactly one of handler/notAllowed/notFound; handler calls pass args[0..n) in order and matching runs on the normalised, prefix-cut path. Two known findings (tail-delimited parameters capture '/', break-without-restore mis-dispatch). Radix-tree construction for route sets outside the corpus is NOT decided.",
+ "Trusted: cmd/ogen as macro-expander; fixture corpus; the regular statement shapes of router.tmpl (other shapes are reported undecided).",
+ "static analysis: decision-tree extraction from the regenerated router's AST, sibling comparison ServeHTTP/FindPath, path-sensitive restore rule, SSA must/at-most-one outcome analysis",
+)
